@@ -16,8 +16,8 @@ def merged(a, k):
 
 for (l, tier) in ((0, 'thorough'), (5, 'quick'), (64, 'thorough'), (70, 'thorough'), (130, 'thorough')):
     for kind, kn in enumerate(('iter', 'one_iter', 'zero_iter')):
-        for k in (4, 6):
-            inst(P, 'c10_bv_%s_l%d_k%d' % (kn, l, k), 'c10::bitvector(%d, %d, %d)' % (l, k, kind), tier=tier if k == 4 else 'thorough', unwind=26,
+        for k in (2, 4, 6):
+            inst(P, 'c10_bv_%s_l%d_k%d' % (kn, l, k), 'c10::bitvector(%d, %d, %d)' % (l, k, kind), tier=tier if (k == 4 and kn == 'iter') or (k == 2 and kn != 'iter') else 'thorough', unwind=26,
                  unwindset=merged({r'OneIter<.*> as std::iter::Iterator>::(next|nth)$': 5, r'OneIter<.*> as std::iter::DoubleEndedIterator>::next_back$': 5, r'c01::any_bits': 5, r'advance_back_by': l + 3, r'advance_by': l + 3}, k),
                  cap=900, cap_thorough=3600, mem=8 if l < 64 else 20, weight=l + 10 * k,
                  desc='BitVector::%s over %d symbolic bits: %d calls of symbolic kind next/next_back/nth(n)/nth_back(n), n over all usize; item, rank and len() checked at every step' % (kn, l, k),
@@ -46,36 +46,39 @@ class LUW(dict):
         if not self._done:
             self._done = True
             n, m, multi, k = self._a
-            self.update(merged(sparse_uw(n, m, None, multi), k))
+            d = merged(sparse_uw(n, m, None, multi), k)
+            d.update({r'advance_by|advance_back_by|try_fold|try_rfold|::nth$|::nth_back$': max(n, m) + 4})
+            self.update(d)
         return super().items()
 
     def __bool__(self):
         return True
 
 
-for (n, m, multi, tier) in ((6, 2, False, 'quick'), (6, 3, True, 'quick'), (12, 3, False, 'thorough'), (4, 6, True, 'thorough'), (1 << 63, 2, False, 'thorough')):
+for (n, m, multi, tier) in ((3, 1, False, 'thorough'), (2, 2, True, 'thorough'), (6, 2, False, 'thorough'), (6, 3, True, 'thorough'), (12, 3, False, 'thorough'), (4, 6, True, 'thorough'), (1 << 63, 2, False, 'thorough')):
     for kind, kn in enumerate(('iter', 'one_iter', 'zero_iter')):
         if (kn == 'iter' and n > 64) or (kn == 'zero_iter' and (multi or n > 64)):
             continue
-        inst(P, 'c10_sparse_%s_%s_n%d_m%d' % ('multi' if multi else 'set', kn, n, m), SC(n, m, multi, 4, kind), tier=tier, unwind=26, stubs=SPARSE, cap=1200, cap_thorough=3600, mem=14,
-             weight=50 + m, desc='SparseVector (%s) %s, universe %d, %d symbolic positions: 4 calls of symbolic kind' % ('multiset' if multi else 'set', kn, n, m),
-             shape={'universe': n, 'ones': m, 'multiset': multi, 'iterator': kn}).unwindset = LUW(n, m, multi, 4)
+        inst(P, 'c10_sparse_%s_%s_n%d_m%d' % ('multi' if multi else 'set', kn, n, m), SC(n, m, multi, 2 if tier == 'quick' else 4, kind), tier=tier, unwind=26, stubs=SPARSE, cap=1200, cap_thorough=3600, mem=12 if tier == 'quick' else 28,
+             weight=50 + m, desc='SparseVector (%s) %s, universe %d, %d symbolic positions: 2 (quick) / 4 calls of symbolic kind' % ('multiset' if multi else 'set', kn, n, m),
+             shape={'universe': n, 'ones': m, 'multiset': multi, 'iterator': kn, 'calls': 2 if tier == 'quick' else 4}).unwindset = LUW(n, m, multi, 4)
 
-RLS = {'two_small': ([(1, 1), (1, 2)], 1, True), 'one_at_any': ([(2, 3)], 1, True), 'empty': ([], 1, True)}
+RLS = {'one_small': ([(1, 1)], 1, False), 'two_small': ([(1, 1), (1, 2)], 1, True), 'one_at_any': ([(2, 3)], 1, True), 'empty': ([], 1, True)}
 for name, (units, sw, trail) in RLS.items():
     for kind, kn in enumerate(('run_iter', 'one_iter', 'zero_iter', 'iter')):
-        call = 'c10::rl(&[%s], %d, %s, 4, %d)' % (', '.join('(%d, %d)' % u for u in units), sw, 'true' if trail else 'false', kind)
-        inst(P, 'c10_rl_%s_%s' % (name, kn), call, tier='quick' if name == 'two_small' and kn in ('run_iter', 'one_iter') else 'thorough', unwind=10, unwindset=merged(rl_uw(units), 4),
-             stubs=['simple_sds::rl_vector::index::SampleIndex::new => stubs::sample_index_new_contract'], cap=1200, cap_thorough=3600, mem=12, weight=60,
+        q = name == 'one_small' and kn in ('run_iter',)
+        call = 'c10::rl(&[%s], %d, %s, %d, %d)' % (', '.join('(%d, %d)' % u for u in units), sw, 'true' if trail else 'false', 2 if q else 4, kind)
+        inst(P, 'c10_rl_%s_%s' % (name, kn), call, tier='quick' if q else 'thorough', unwind=10, unwindset=merged(dict(rl_uw(units), **{r'advance_by|advance_back_by|try_fold|try_rfold|::nth$': 8 * len(units) + 4}), 4),
+             stubs=['simple_sds::rl_vector::index::SampleIndex::new => stubs::sample_index_new_contract'], cap=1200, cap_thorough=3600, mem=12 if q else 28, weight=60,
              desc='RLVector %s (%s, symbolic runs): 4 calls of symbolic kind next/nth(n)' % (kn, name), shape={'runs': units, 'iterator': kn})
 
 for (n, maxv, tier) in ((3, 1, 'quick'), (4, 2, 'thorough')):
     width = bit_len(maxv)
     fw = sorted(feasible_fw(n, maxv))[0]
     for kind, kn in enumerate(('access_iter', 'into_iter', 'value_iter')):
-        inst(P, 'c10_wm_%s_n%d_max%d' % (kn, n, maxv), 'c10::wm(%d, %d, %d, 4, %d)' % (n, maxv, fw, kind), tier=tier, unwind=10, unwindset=merged(wm_uw(n, width), 4), stubs=['bvspec'],
+        inst(P, 'c10_wm_%s_n%d_max%d' % (kn, n, maxv), 'c10::wm(%d, %d, %d, %d, %d)' % (n, maxv, fw, 2 if kn == 'value_iter' and tier == 'quick' else 4, kind), tier=tier, unwind=10, unwindset=merged(wm_uw(n, width), 4), stubs=['bvspec'],
              cap=1200, cap_thorough=3600, mem=10, weight=40, desc='WaveletMatrix %s (%d symbolic items <= %d): 4 calls of symbolic kind' % (kn, n, maxv), shape={'len': n, 'max_value': maxv, 'iterator': kn})
 
 extra(P, assumptions=['bitvector iterators need no support structure; sparse / wavelet iterators run over specification stubs for the embedded bitvectors; RL vectors assembled from parts with the SampleIndex contract stub',
                       'select_iter / predecessor / successor starting points continuing with consecutive ranks: C01 (select_iter), C02/C03 (select_iter, select_zero_iter), C04 (select_iter)'],
-      coverage={'outside_bounds': ['more than 6 calls', 'parents larger than the listed shapes', 'clone-then-continue']})
+      coverage={'outside_bounds': ['more than 6 calls', 'parents larger than the listed shapes', 'clone-then-continue', 'sparse and run-length one/zero/bit iterator DRIVERS run in the thorough tier only (symbolic execution of the default nth()/nth_back() loops needs > 12 GB even for 3-bit universes); their forward/backward sequences are checked in the quick tier by C02 (set_iters, set_bits), C15 (one_iter, multiset_bits) and C03 (run_iter, one_iter, zero_iter heads)']})
